@@ -82,10 +82,15 @@ impl CookieKeys {
     // Gets the current and previous cookie keys, rotating them if they've expired.
     async fn get_keys(s: &tokio::sync::RwLock<Self>) -> (Key, Key) {
         if s.read().await.needs_rotation() {
-            // TODO: This only does one rotation, it's possible both keys have expired, in which
-            // case we should rotate both.
             let mut cookies = s.write().await;
+            // If nobody asked for the keys for so long that the key rotated in now would have
+            // expired too, the current key is older than a whole key period and must not
+            // survive as the previous key either.
+            let both_expired = cookies.next_refresh + HOURS_36 < tokio::time::Instant::now();
             *cookies = cookies.rotate();
+            if both_expired {
+                *cookies = cookies.rotate();
+            }
         }
 
         let cookies = s.read().await;
